@@ -74,6 +74,13 @@ class FullFrontend(ConstrainedFrontend):
     #
 
     def _get_solver(self):
+        if self._solver_backend.reuse_z3_solver:
+            # the Z3 solver is shared by every frontend used on this thread and may hold another frontend's
+            # constraints: always start from the (reset) shared solver and re-add all of ours
+            self._tls.solver = self._solver_backend.solver(timeout=self.timeout, max_memory=self.max_memory)
+            self._add_constraints()
+            return self._tls.solver
+
         if getattr(self._tls, "solver", None) is None:
             self._tls.solver = self._solver_backend.solver(timeout=self.timeout, max_memory=self.max_memory)
             self._add_constraints()
@@ -88,11 +95,7 @@ class FullFrontend(ConstrainedFrontend):
         if len(self._to_add) > 0:
             self._add_constraints()
 
-        solver = self._tls.solver
-        if self._solver_backend.reuse_z3_solver:
-            # we must re-add all constraints
-            self._add_constraints()
-        return solver
+        return self._tls.solver
 
     def _add_constraints(self):
         self._solver_backend.add(self._tls.solver, self.constraints, track=self._track)
@@ -332,7 +335,12 @@ class FullFrontend(ConstrainedFrontend):
             # all constraints are satisfied
             return ()
 
-        unsat_core = self._solver_backend.unsat_core(self._get_solver())
+        # the core is read from the solver object that performed the failing check; with a shared (reused) solver
+        # the check above ran on a solver that has been reset since, so repeat it on the one we are about to ask
+        solver = self._get_solver()
+        if self._solver_backend.reuse_z3_solver:
+            self._solver_backend.satisfiable(extra_constraints=extra_constraints, solver=solver)
+        unsat_core = self._solver_backend.unsat_core(solver)
 
         return tuple(unsat_core)
 
